@@ -64,7 +64,15 @@ impl Worker {
 /// partial mock: r0(a) answered once by a stored value (its matcher panics on 7);
 /// r1 falls through to its real function, d0 to its default body, r2 to nothing (a recorded error)
 pub fn life_mock() -> Unimock {
-    Unimock::new_partial(
+    life_mock_with(STORED)
+}
+pub fn life_mock_with(stored: u32) -> Unimock {
+    Unimock::new_partial((
+        UMock::lendreq.each_call(matching!(_)).answers(&|u, a| {
+            // lend a value through whatever instance evaluates the call (the delegation helper for `dp`)
+            let _r: &Val = u.make_ref(Val::new(LENT_BASE + a as u32));
+            Val::new(0)
+        }),
         UMock::r0
             .each_call(&|m| {
                 m.func(|a: &u8, _| {
@@ -75,9 +83,9 @@ pub fn life_mock() -> Unimock {
                 });
                 m.pat_debug("(_)", "life", 1);
             })
-            .returns(Val::new(STORED))
+            .returns(Val::new(stored))
             .n_times(1),
-    )
+    ))
 }
 
 fn classify_teardown(msg: &str) -> String {
@@ -111,16 +119,35 @@ fn obs_res(r: Result<String, Box<dyn std::any::Any + Send>>) -> String {
 
 /// one borrow epoch: k values lent through &self; after every push all earlier references of the
 /// epoch are re-read and must still designate their own, unmodified value
+/// a zero-sized value with a destructor (drops are counted globally: it has no room for an id)
+pub struct Zst;
+pub static ZDROPS: std::sync::atomic::AtomicU32 = std::sync::atomic::AtomicU32::new(0);
+impl Drop for Zst {
+    fn drop(&mut self) {
+        ZDROPS.fetch_add(1, std::sync::atomic::Ordering::SeqCst);
+    }
+}
+/// a destructor that builds and drops a fresh mock with an unmet expectation (origin "userfresh")
+struct FreshOnDrop;
+impl Drop for FreshOnDrop {
+    fn drop(&mut self) {
+        let m = life_mock_with(STORED + 1); // its own stored value, not the one whose drops are compared
+        drop(m);
+    }
+}
+
 fn epoch(u: &Unimock, first: u32, k: usize) -> String {
     let mut vrefs: Vec<(&Val, u32)> = vec![];
     let mut trefs: Vec<(&Tok, u32)> = vec![];
     let mut srefs: Vec<(&String, u32)> = vec![];
+    let mut zrefs: Vec<&Zst> = vec![];
     for x in 0..k as u32 {
         let id = first + x;
-        match id % 3 {
+        match id % 4 {
             0 => vrefs.push((u.make_ref(Val::new(id)), id)),
             1 => trefs.push((u.make_ref(Tok::new(id)), id)),
-            _ => srefs.push((u.make_ref(format!("s{id}")), id)),
+            2 => srefs.push((u.make_ref(format!("s{id}")), id)),
+            _ => zrefs.push(u.make_ref(Zst)),
         }
         for (r, id) in &vrefs {
             if r.id != *id || r.gen != 0 {
@@ -151,8 +178,16 @@ fn epoch(u: &Unimock, first: u32, k: usize) -> String {
 }
 
 /// Strings are not drop-counted; only Val/Tok ids are compared with the model's `dropped`.
-fn counted(id: u32) -> bool {
-    id == STORED || (id >= LENT_BASE && (id % 3) != 2)
+/// which kind of value an id was lent as in the current behaviour: 'v' Val, 't' Tok, 's' String, 'z' Zst
+type Kinds = std::collections::HashMap<u32, char>;
+fn kind_by_id(id: u32) -> char {
+    ['v', 't', 's', 'z'][(id % 4) as usize]
+}
+fn counted(kinds: &Kinds, id: u32) -> bool {
+    id == STORED || matches!(kinds.get(&id), Some('v') | Some('t'))
+}
+fn is_zst(kinds: &Kinds, id: u32) -> bool {
+    matches!(kinds.get(&id), Some('z'))
 }
 
 pub struct LifeRunner {
@@ -198,6 +233,8 @@ impl LifeRunner {
         slots[0] = Some(life_mock());
         let mut gone: std::collections::BTreeSet<u32> = Default::default();
         let mut ok = true;
+        let mut zseen = ZDROPS.load(std::sync::atomic::Ordering::SeqCst);
+        let mut kinds: Kinds = Default::default();
         for (si, st) in beh.steps.iter().enumerate() {
             self.steps += 1;
             *self.op_counts.entry(st.ev.op.clone()).or_default() += 1;
@@ -238,6 +275,22 @@ impl LifeRunner {
                         },
                     }
                 }
+                "pinlend" => {
+                    // a provided method with a pinned receiver; the value ends up in the helper's chain
+                    let mut u = slots[i].take().unwrap();
+                    let a = st.new as u8;
+                    kinds.insert(LENT_BASE + st.new as u32, 'v');
+                    let (u, r) = self.on(t, move || {
+                        let r = catch_unwind(AssertUnwindSafe(|| std::pin::Pin::new(&mut u).dp(a).id));
+                        (u, r)
+                    });
+                    slots[i] = Some(u);
+                    match r {
+                        Ok(0) => "ret:lent".into(),
+                        Ok(x) => format!("ret:{x}"),
+                        Err(p) => obs_res(Err(p)),
+                    }
+                }
                 "lend" => {
                     let u = slots[i].take().unwrap();
                     let c = slots[ev.j].take().unwrap();
@@ -252,6 +305,9 @@ impl LifeRunner {
                     let u = slots[i].take().unwrap();
                     let first = LENT_BASE + st.new as u32;
                     let k = ev.k;
+                    for x in 0..k as u32 {
+                        kinds.insert(first + x, kind_by_id(first + x));
+                    }
                     let (u, r) = self.on(t, move || {
                         let r = epoch(&u, first, k);
                         (u, r)
@@ -262,14 +318,19 @@ impl LifeRunner {
                 "make_mut" => {
                     let mut u = slots[i].take().unwrap();
                     let id = LENT_BASE + st.new as u32;
+                    kinds.insert(id, kind_by_id(id));
                     let (u, r) = self.on(t, move || {
-                        let ok = match id % 3 {
+                        let ok = match id % 4 {
                             0 => u.make_mut(Val::new(id)).id == id,
                             1 => u.make_mut(Tok::new(id)).id == id,
-                            _ => {
+                            2 => {
                                 let s = u.make_mut(format!("s{id}"));
                                 s.push('x');
                                 s.ends_with('x')
+                            }
+                            _ => {
+                                let _z: &mut Zst = u.make_mut(Zst);
+                                true
                             }
                         };
                         (u, if ok { "mutref".to_string() } else { "mutref-corrupt".to_string() })
@@ -371,6 +432,10 @@ impl LifeRunner {
                                     CLONE_PANIC.with(|c| c.set(STORED));
                                     let _ = target.r0(0);
                                 }
+                                "userfresh" => {
+                                    let _cleanup = FreshOnDrop;
+                                    std::panic::panic_any(UserPanic(0))
+                                }
                                 _ => std::panic::panic_any(UserPanic(0)),
                             }
                         }));
@@ -400,7 +465,7 @@ impl LifeRunner {
             let mut ids: Vec<u32> = vec![STORED];
             ids.extend((0..=max_vals + 2).map(|v| LENT_BASE + v));
             for id in ids {
-                if !counted(id) {
+                if !counted(&kinds, id) {
                     continue;
                 }
                 let d = drops0(id);
@@ -416,10 +481,24 @@ impl LifeRunner {
                 .dropped
                 .iter()
                 .map(|v| if *v == STORED { STORED } else { LENT_BASE + *v })
-                .filter(|id| counted(*id))
+                .filter(|id| counted(&kinds, *id))
                 .collect();
             exp.sort();
             now.sort();
+            // zero-sized lent values: only their number can be observed
+            let zexp = st.dropped.iter().filter(|v| **v != STORED && is_zst(&kinds, LENT_BASE + **v)).count() as u32;
+            let znow = ZDROPS.load(std::sync::atomic::Ordering::SeqCst);
+            let zdelta = znow - zseen;
+            zseen = znow;
+            if zdelta != zexp && res == st.res && now == exp {
+                ok = false;
+                self.divergences += 1;
+                if self.divs.len() < 20 {
+                    self.divs.push(json!({"what": "zero-sized lent values destroyed by this operation", "step": si + 1, "expected": {"zst_drops": zexp}, "observed": {"zst_drops": zdelta},
+                        "beh": beh, "in_scope": true}));
+                }
+                break;
+            }
             if res != st.res || now != exp || !twice.is_empty() {
                 ok = false;
                 self.divergences += 1;
